@@ -6,6 +6,7 @@ from ..recorder import Rec, CID, push, observed
 from .c02 import msg_of
 from .c05 import ref_root
 from hypothesis import strategies as st
+from ..gen import dict_order as gen_dict_order
 
 F, T = env.F, env.T
 C = O.CODES
@@ -235,7 +236,7 @@ BODIES = [bytes([C['OP_TRUE']]), bytes([C['OP_FALSE']]), bytes([C['OP_PUSH0'], 7
 @st.composite
 def fields_st(draw):
     f = {'sigfield%d' % i: draw(st.binary(min_size=1, max_size=10)) for i in range(1, 9) if draw(st.integers(0, 2)) == 0}
-    return f or {'sigfield2': b'msg'}
+    return gen_dict_order(draw, f) if f else {'sigfield2': b'msg'}
 
 
 @st.composite
